@@ -457,6 +457,6 @@ func init() {
 			}
 			return fmt.Sprintf("re-run: kvcheck-full-race one C07 quick %s\nwitness: %v", v.Unit, v.Witness)
 		},
-		BudgetQuick: 110, BudgetThorough: 900,
+		BudgetQuick: 150, BudgetThorough: 900,
 	})
 }
